@@ -47,12 +47,14 @@ CANARIES = {
     "critic update writes into the target - by roles": ("NextCriticMovesTarget", "DQN", "FrameByRole"),
     "optimiser of A applied to B": ("NextWrongOptimizer", "SAC", "FrameByDoc"),
     "evaluating a loss mutates a network": ("NextEvaluateMutates", "PG", "FrameByRole"),
+    "forward pass renormalises the task embedding (evaluation changes q)": ("NextEvaluateMutates", "DQNMT", "FrameByRole"),
     "update on a generic batch does not learn": ("NextUpdateDoesNotLearn", "MRQ", "NonVacuity"),
 }
-FAMILIES = ["DQN", "DDPG", "TD3", "SAC", "TD7", "MRQ", "PPO", "PG", "PETS"]
+FAMILIES = ["DQN", "DQNMT", "DDPG", "TD3", "SAC", "TD7", "MRQ", "PPO", "PG", "PETS"]
 # (family -> variants of the real agent bound to the same model family)
 VARIANTS = {
     "DQN": ["mlp"],
+    "DQNMT": ["mt_embedding"],
     "DDPG": ["create_ddpg_state"],
     "TD3": ["create_td3_state"],
     "SAC": ["create_sac_state"],
@@ -62,8 +64,8 @@ VARIANTS = {
     "PG": ["discrete", "continuous"],
     "PETS": ["create_pets_state"],
 }
-DEPTH_QUICK = {"DQN": 3, "DDPG": 3, "TD3": 3, "SAC": 3, "TD7": 2, "MRQ": 3, "PPO": 4, "PG": 3, "PETS": 4}
-DEPTH_THOROUGH = {"DQN": 4, "DDPG": 4, "TD3": 4, "SAC": 4, "TD7": 3, "MRQ": 4, "PPO": 5, "PG": 4, "PETS": 5}
+DEPTH_QUICK = {"DQN": 3, "DQNMT": 3, "DDPG": 3, "TD3": 3, "SAC": 3, "TD7": 2, "MRQ": 3, "PPO": 4, "PG": 3, "PETS": 4}
+DEPTH_THOROUGH = {"DQN": 4, "DQNMT": 4, "DDPG": 4, "TD3": 4, "SAC": 4, "TD7": 3, "MRQ": 4, "PPO": 5, "PG": 4, "PETS": 5}
 
 OBS, ACT, NB, NBUF = 3, 2, 8, 16  # observation / action dimensions, batch size, transitions per buffer
 GAMMA = 0.99
@@ -134,6 +136,7 @@ class Agent:
         self.get_extra = lambda: None  # non-component state that calls modify (restored with the snapshot)
         self.set_extra = lambda x: None
         self.order, self.salt, self.lv, self.ids = None, None, None, {}
+        self.rn = {}  # DQNMT: observed renormalisation map content id -> content id (the model's rn)
 
     # -- projection ------------------------------------------------------
     def bind(self, meta):
@@ -184,13 +187,18 @@ class Agent:
             if d not in self.ids:
                 self.ids[d] = len(self.ids)
             ver[c] = self.ids[d]
-        return {"ver": ver, "nxt": len(self.ids), "calls": calls}
+        rn = {str(i): self.rn.get(i, -1) for i in range(len(self.ids))} if self.family == "DQNMT" else []
+        return {"ver": ver, "nxt": len(self.ids), "calls": calls, "rn": rn}
+
+    def reset(self):
+        self.ids, self.rn = {}, {}
 
     def snap(self):
-        return ([[v.value for _, v in self.lv[c]] for c in self.order], self.get_extra(), dict(self.ids))
+        return ([[v.value for _, v in self.lv[c]] for c in self.order], self.get_extra(), (dict(self.ids), dict(self.rn)))
 
     def restore(self, s):
-        vals, extra, ids = s
+        vals, extra, (ids, rn) = s
+        self.rn = dict(rn)
         for c, vs in zip(self.order, vals):
             for (_, v), a in zip(self.lv[c], vs):
                 v.value = a
@@ -202,6 +210,11 @@ class Agent:
             return self.evals[args["fn"]]()
         if op == "Act":
             return self.acts[args["fn"]]()
+        if op == "select_task":  # record which content the renormalisation maps the current one to
+            a = self.ids[self.digest(args["c"])]
+            self.ops[op](args)
+            self.rn[a] = self.ids.setdefault(self.digest(args["c"]), len(self.ids))
+            return None
         return self.ops[op](args)
 
 
@@ -250,11 +263,32 @@ def build_dqn(seed, variant):
     from rl_blox.blox.q_policy import greedy_policy
     from rl_blox.blox.replay_buffer import ReplayBuffer
 
-    ag = Agent("DQN", variant)
+    mt = variant == "mt_embedding"
+    ag = Agent("DQNMT" if mt else "DQN", variant)
     d = Data(seed, "DQN", discrete=True)
-    q = MLP(OBS, ACT, [8], "relu", nnx.Rngs(seed))
+    if mt:
+        # multi-task Q-network as in examples/smt_discrete_example.py; every row of the task-embedding
+        # table is written ABOVE max_task_embedding_norm (as after gradient steps pushed it there), in
+        # the online network and - through the clone - in the target
+        from rl_blox.blox.embedding.task_embedding import MTMLPQNetwork
+
+        q = MTMLPQNetwork(n_tasks=2, task_embedding_dim=3, n_features=OBS, n_outputs=ACT, hidden_nodes=[8], activation="relu", rngs=nnx.Rngs(seed))
+        emb = q._task_embedding.embedding
+        emb.value = jnp.asarray(d.rng.uniform(1.0, 2.0, emb.value.shape) * d.rng.choice([-1.0, 1.0], emb.value.shape), jnp.float32)
+        if not bool((jnp.linalg.norm(emb.value, axis=1) > 1.5 * q.max_task_embedding_norm).all()):
+            raise tlc.MachineryError("DQNMT: embedding rows are not above the maximal norm")
+    else:
+        q = MLP(OBS, ACT, [8], "relu", nnx.Rngs(seed))
     opt = nnx.Optimizer(q, optax.adam(1e-2), wrt=nnx.Param)
     qt = nnx.clone(q)
+    if mt:
+        ag.ops["select_task"] = lambda a: ag.comps[a["c"]].select_task(a["task"])
+        ag.get_extra = lambda: (q.task_id, qt.task_id)
+
+        def set_extra(x):
+            q.task_id, qt.task_id = x
+
+        ag.set_extra = set_extra
     ag.comps.update(q=q, q_opt=opt, q_target=qt)
     batch = d.fill(ReplayBuffer(NBUF, discrete_actions=True)).sample_batch(NB, d.np_rng())
     ratio = {"generic": jnp.asarray(d.rng.uniform(0.2, 1.0, NB), jnp.float32), "zero": jnp.zeros(NB, jnp.float32)}
@@ -603,6 +637,7 @@ def build_pets(seed, variant):
 def build(family, variant, seed):
     return {
         "DQN": build_dqn,
+        "DQNMT": build_dqn,
         "DDPG": lambda s, v: _actor_critic("DDPG", v, s, False),
         "TD3": lambda s, v: _actor_critic("TD3", v, s, True),
         "SAC": build_sac,
@@ -618,6 +653,8 @@ def build(family, variant, seed):
 def opname(op, args):
     if op in SELF_LOOPS:
         return f"{op}({args['fn']})"
+    if op == "select_task":
+        return f"{args['c']}.select_task"
     return op
 
 
@@ -674,7 +711,7 @@ def cover(G, ag, on_violation, stats):
     enabled label is executed once on the real objects (state restored before each), the projected
     post-state must be among TLC's successors for the label; continue from the real post-state."""
     root = G.roots()[0]
-    ag.ids = {}
+    ag.reset()
     p0 = ag.project(0)
     if canon(p0) != root:
         raise tlc.MachineryError(f"{ag.family}/{ag.variant}: initial projection {p0} differs from the model's initial state {G.state[root]}")
@@ -751,7 +788,7 @@ def binding_canaries(G, meta, seed):
         patch(ag)
         col = _Collect()
         root = G.roots()[0]
-        ag.ids = {}
+        ag.reset()
         ag.project(0)
         s = ag.snap()
         for (op, cargs), posts in labels_of(G, root).items():
@@ -804,7 +841,7 @@ def binding_canaries(G, meta, seed):
     # corrupted expectation: remove the real successor from the model's set
     ag = make_agent("DQN", "mlp", seed, meta)
     root = G.roots()[0]
-    ag.ids = {}
+    ag.reset()
     ag.project(0)
     (op, cargs), posts = next(((o, c), p) for (o, c), p in labels_of(G, root).items() if o == "train_step_with_loss(dqn_loss)")
     execute(ag, op, json.loads(cargs))
@@ -912,7 +949,7 @@ def _run_fn(rep, quick, depth, futs, t0):
             rep.violation(f"spec:Components:{r.violated}", f"design-level violation of {r.violated} in Components ({name})", r.error_trace)
             continue
         fam = name.split()[1]
-        need = ["Call", "Evaluate", "Act"] + (["TargetUpdate"] if fam not in ("PPO", "PG", "PETS") else []) + (["TrainStepTD7"] if fam == "TD7" else [])
+        need = ["Call", "Evaluate", "Act"] + (["TargetUpdate"] if fam not in ("PPO", "PG", "PETS") else []) + (["TrainStepTD7"] if fam == "TD7" else []) + (["SelectTask"] if fam == "DQNMT" else [])
         tlc.require_covered(r, need)
     timing["total_s"] = round(time.time() - t0, 1)
 
@@ -921,7 +958,7 @@ def _run_fn(rep, quick, depth, futs, t0):
     rep.distinct += total["updates"]
     rep.exhaustive = True
     rep.rule = (
-        "TLC enumerates the reachable state graph of Components (content-id vector of all components) for each of 9 algorithm families over all sequences of "
+        "TLC enumerates the reachable state graph of Components (content-id vector of all components) for each of 9 algorithm families (+ the DQN family on multi-task Q-networks with over-long task-embedding rows) over all sequences of "
         f"update / target / composed-train-step calls of length <= MaxCalls ({depth}) with batch kind in {{generic, zero-gradient}}, loss evaluations and acting calls enabled in every state; "
         "the real routines are executed along the real behaviour (breadth first): every label enabled in a reached state once, all components digested bit for bit and the projected "
         "state compared with the successors TLC allows for that label; a case is non-trivial when it is an update / target / train-step call (counted: executed on real objects)"
@@ -953,7 +990,7 @@ def replay_fn(d, rep=None):
         print("  ", dv.what)
         return 1
     k = G.roots()[0]
-    ag.ids = {}
+    ag.reset()
     print(fam, variant, "seed", seed, "initial", ag.project(0)["ver"])
     for s in path:
         op, args = s["op"], s["args"]
